@@ -304,9 +304,14 @@ func c11Run(c *sim.Ctx) {
 		mon.curCode = 0
 	}
 
+	everOpened := false
 	check := func(op string, mustLeave bool) {
 		opened := m.IsOpened()
 		c.OpsDone++
+		if opened && !everOpened {
+			everOpened = true
+			c.S.Probe("reached_opened_" + cs.Variant)
+		}
 		if opened && !(mon.peerAcked && mon.weAcked) {
 			miss := "peerack"
 			if mon.peerAcked {
@@ -590,6 +595,9 @@ func c11Run(c *sim.Ctx) {
 			default:
 				d = time.Duration(maxcfg+2) * rt
 			}
+			if a := op.Arg(0); a >= 1 && a <= 3 {
+				c.S.Probe("sleep_within_1ms_of_restart_timer") // the driver wakes within 1 ms of the restart timer
+			}
 			c.S.Sleep(d)
 			check("sleep", false)
 		}
@@ -601,6 +609,7 @@ func c11Run(c *sim.Ctx) {
 	c.OpIdx = len(cs.Ops)
 	mon.reqSinceEvent = 0
 	before := mon.sentTotal
+	c.S.Probe("silence_from_" + m.State())
 	c.S.Sleep(time.Duration(maxcfg+2)*rt + time.Second)
 	if mon.sentTotal-before > mon.limit {
 		c.Fail("termination", "termination/"+cs.Variant+"/silent-peer-requests", "%d packets sent to a silent peer, configured maximum %d", mon.sentTotal-before, mon.limit)
